@@ -16,9 +16,68 @@ PINS = {
     "C17_sourcepos": "forall docs sl sc el ec, 1 <= sc -> 1 <= ec -> sourcepos_to_span docs sl sc el ec <> SPanic",
 }
 SIZES = {"quick": (24000, 8), "thorough": (800000, 16)}
+# generator coverage the check insists on (per run, all shards together): every (markdown link form x
+# import situation of the link's target schema) cell, and both outcomes of every lookup that is keyed by
+# a name from the source text (see design/C17.md, "Name-keyed lookups")
+MIN_CELL = {"quick": 40, "thorough": 1000}
+REQUIRED_RESOLUTIONS = [
+    # LinkResolver::resolve: import list of the linking schema (absent / present), then the schema map (absent / present)
+    "Err:SchemaNotFound:not_imported", "Err:SchemaNotFound:not_imported_but_in_schema_map",
+    "Err:SchemaNotFound:imported_but_not_in_schema_map", "Ok:Schema:other_schema",
+    # definitions of the target schema: own / import that parsed / import without text / import with a syntax error
+    "Err:DefinitionNotFound:own_schema", "Err:DefinitionNotFound:import", "Err:DefinitionNotFound:unreadable_import",
+    "Err:DefinitionNotFound:import_without_definitions",
+    "Ok:Struct", "Ok:Struct:other_schema", "Ok:Enum", "Ok:Enum:other_schema", "Ok:Service", "Ok:Service:other_schema",
+    "Ok:Const", "Ok:Const:other_schema", "Ok:Newtype", "Ok:Newtype:other_schema",
+    # members
+    "Ok:Field", "Ok:Field:other_schema", "Err:FieldNotFound", "Ok:FallbackField", "Err:LinkIntoField",
+    "Ok:Variant", "Ok:Variant:other_schema", "Err:VariantNotFound", "Ok:FallbackVariant", "Err:LinkIntoVariant",
+    "Ok:Function", "Ok:Function:other_schema", "Ok:Event", "Ok:Event:other_schema", "Err:ItemNotFound",
+    "Ok:FunctionFallback", "Ok:EventFallback", "Err:InvalidFunctionPart", "Err:InvalidEventPart",
+    "Ok:FunctionPartInlineType", "Ok:FunctionPartInlineMember", "Ok:EventInlineType", "Ok:EventInlineMember",
+    "Err:InlineFieldNotFound", "Err:InlineVariantNotFound", "Err:NoFunctionArgsInlineType", "Err:NoFunctionOkInlineType",
+    "Err:NoFunctionErrInlineType", "Err:NoEventInlineType", "Err:LinkIntoConst", "Err:LinkIntoNewtype", "Err:InvalidFormat",
+    "Ok:Foreign",
+]
+REQUIRED_REFS = [f"{pos}|{sit}|{cls}" for pos in ("type", "array_len")
+                 for sit, cls in (("self", "right_kind"), ("self", "wrong_kind"), ("self", "undefined"), ("resolves", "right_kind"),
+                                  ("resolves", "wrong_kind"), ("resolves", "undefined"), ("missing", "undefined"),
+                                  ("unreadable", "undefined"), ("syntax_error", "undefined"), ("not_imported", "undefined"),
+                                  ("not_imported", "right_kind"), ("keyword", "undefined"))]
+REQUIRED_KINDS = ["ImportNotFound", "MissingImport", "TypeNotFound", "ConstIntNotFound", "ExpectedTypeFoundConst",
+                  "ExpectedTypeFoundService", "ExpectedConstIntFoundType", "ExpectedConstIntFoundService",
+                  "ExpectedConstIntFoundString", "InvalidArrayLen", "InvalidKeyType", "RecursiveStruct", "RecursiveEnum",
+                  "RecursiveNewtype", "DuplicateServiceUuid", "DuplicateImport", "UnusedImport", "IoError", "InvalidSyntax",
+                  "ReservedIdent", "InvalidEscapeCode", "BrokenDocLink"]
 
 
-def correspondence(o, n, shards, seed):
+def generator_coverage(o, st, tier):
+    """the input distribution is part of the check: a generator that silently stops producing a class of
+    inputs (a link form, an import situation, a lookup outcome) is a broken obligation, not a pass"""
+    m = st.get("doc_link_matrix") or {}
+    low = sorted((v, k) for k, v in m.items() if v < MIN_CELL[tier])
+    forms = {k.split("|")[0] for k in m}
+    sits = {k.split("|")[1] for k in m}
+    if not m or low or len(forms) < 16 or len(sits) < 7:
+        o.obligation_broken("generator coverage: doc links by (link form x import situation of the target schema)",
+                            f"{len(forms)} forms x {len(sits)} situations; cells below {MIN_CELL[tier]}: {low[:12]}")
+    res = st.get("link_resolutions") or {}
+    miss = [k for k in REQUIRED_RESOLUTIONS if not res.get(k)]
+    refs = st.get("named_ref_matrix") or {}
+    miss += [k for k in REQUIRED_REFS if not refs.get(k)]
+    kinds = st.get("diagnostic_kinds") or {}
+    miss += [k for k in REQUIRED_KINDS if not kinds.get(k)]
+    classes = st.get("result_classes") or {}
+    if not classes.get("stream_class:valid_doc_links_clean:no_errors"):
+        miss.append("stream_class:valid_doc_links_clean:no_errors (code generation over schemas with doc links)")
+    if miss:
+        o.obligation_broken("generator coverage: outcomes of the name-keyed lookups never observed", ", ".join(miss))
+    return {"doc_link_matrix_min_cell": min(m.values()) if m else 0, "doc_link_forms": len(forms),
+            "doc_link_situations": len(sits), "doc_links_generated": sum(m.values()),
+            "links_resolved_by_the_real_resolver": sum(res.values())}
+
+
+def correspondence(o, n, shards, seed, tier="quick"):
     if not base.build(o):
         return
     lst, nfiles = base.repo_files(PROP)
@@ -39,11 +98,22 @@ def correspondence(o, n, shards, seed):
     o.coverage.update({
         "evaluations": compared,
         "distinct_nontrivial": st.get("distinct_nontrivial", 0),
-        "rule": "source texts from five streams (token soups over the grammar's alphabet incl. stray characters and Unicode "
+        "rule": "source texts from seven streams (token soups over the grammar's alphabet incl. stray characters and Unicode "
                 "spaces; 1-3 mutations of generated valid schemas; 1-3 mutations of every repository schema; the repository "
                 "schemas; generated valid schemas with adversarial doc comments: markdown links/references/footnotes/tables/"
                 "task lists, CR/LF mixes, tabs, multi-byte characters at span boundaries) with six import situations (none, "
-                "resolvable, unreadable, mutated/soup imports, cyclic imports sharing a service uuid); each goes TWICE through "
+                "resolvable, unreadable, mutated/soup imports, cyclic imports sharing a service uuid); name-directed schemas "
+                "(valid_doc_links, a quarter of them free of diagnostics so that code generation runs, and byte mutations of "
+                "them): a main schema in a world of schemas in known situations (import missing from the resolver / unreadable / "
+                "syntax error / resolves incl. cycles through main and transitively loaded schemas / not imported / the schema "
+                "itself / keyword names), whose doc comments carry links in 16 markdown forms (inline, title, <..>, full/"
+                "collapsed/shortcut references, broken-reference callbacks with and without code spans, autolinks, images, "
+                "nested, in lists/quotes/headings/tables/footnotes/code, split over lines and CRs) whose schema component and "
+                "item path are drawn from that world (defined / near miss / mangled / generic / schema only; scoped, unscoped, "
+                "self::, ::self::, own name, malformed), and whose named references in type, key and array-length position are "
+                "drawn the same way (right kind / wrong kind / undefined); the matrices are in input_distribution and every "
+                "(link form x situation) cell and every outcome of the name-keyed lookups is REQUIRED (generator_coverage); "
+                "each input goes TWICE through "
                 "Parser::parse, every Error/Warning render (colour/unicode/width 20..400), Formatter and, only when there is "
                 "no error, Generator::rust (client/server/introspection variants) under catch_unwind; monitors: no panic, "
                 "same position-free diagnostics, same rendered text (as sorted multisets), same formatted and generated "
@@ -52,7 +122,9 @@ def correspondence(o, n, shards, seed):
                 "BrokenDocLink warnings (comrak positions re-derived with the same options). distinct_nontrivial = distinct "
                 "source texts of >= 2 bytes",
         "samples": st.get("samples", []),
-        "input_distribution": {k: st.get(k) for k in ("inputs", "result_classes", "diagnostic_kinds")},
+        "input_distribution": {k: st.get(k) for k in ("inputs", "result_classes", "diagnostic_kinds", "doc_link_matrix",
+                                                        "doc_link_paths", "named_ref_matrix", "link_resolutions")},
+        "generator_coverage": generator_coverage(o, st, tier),
         "correspondence_ops": ops,
         "model_abstained": abstained,
         "repository_files": nfiles,
@@ -78,7 +150,7 @@ def run(tier, seed):
                                  "indent never indexes past INDENT; the modelled functions are pure. Observed: panics, "
                                  "repeatability of diagnostics, reachability of code generation")
     n, shards = SIZES[tier]
-    correspondence(o, n, shards, seed)
+    correspondence(o, n, shards, seed, tier)
     return finish(o)
 
 
